@@ -238,6 +238,10 @@ fn doubtful_rhs(r: &Ex) -> bool {
         E::Str(_) | E::HexStr(_) | E::ArrayLit(_) | E::List(_) | E::NamedCall(..) | E::CallBlock(..) | E::Un(UnOp::New, _) | E::Slice(..) => d = true,
         E::Call(f, _) => match &f.e {
             E::Type(t) if t != "bytes" && t != "string" => {}
+            // calls of named functions and of members of anything but `abi`: the variable's declared type is a value type,
+            // whatever the function that produces the value is called (C08: "always suggests such a value-typed variable")
+            E::Var(_) => {}
+            E::Member(b, _) if !is_var(b, "abi") => {}
             _ => d = true,
         },
         _ => {}
